@@ -822,6 +822,7 @@ sm_proof!(6, bitset_sizes, {
         assert!(crate::sm::BITSET_REQUESTS[0] == max as usize + 1, "bitset: outgoing_rel must cover ids 0..=max");
         assert!(crate::sm::BITSET_REQUESTS[1] == u16::MAX as usize + 1, "bitset: incoming_pub must cover every u16 id");
     }
+    kani::cover!(true, "sizes recorded");
     core::mem::forget(st);
 });
 
